@@ -444,6 +444,50 @@ def _escapes(loop: ast.For, names, root) -> bool:
     return bool(found)
 
 
+def first_match_to_next(stmts: list[ast.stmt]) -> list[ast.stmt]:
+    """for T in S: if C: return E   followed by   return D      ->      return next((E for T in S if C), D)
+    (the first element passing the filter decides; D only when none does).  Function level: the loop is followed by the final return
+    (or the end of the function, D = None)."""
+    def conv(loop, default):
+        if not isinstance(loop, ast.For) or loop.orelse or len(loop.body) != 1:
+            return None
+        conds = []
+        st = loop.body[0]
+        while isinstance(st, ast.If) and not st.orelse and len(st.body) == 1:
+            conds.append(st.test)
+            st = st.body[0]
+        if not (isinstance(st, ast.Return) and st.value is not None and conds):
+            return None
+        if any(isinstance(n, (ast.Yield, ast.YieldFrom, ast.Await, ast.NamedExpr)) for n in ast.walk(loop)):
+            return None
+        gen = ast.GeneratorExp(elt=st.value, generators=[ast.comprehension(target=loop.target, iter=loop.iter, ifs=conds, is_async=0)])
+        call = ast.Call(func=ast.Name(id="next", ctx=ast.Load()), args=[gen, default if default is not None else ast.Constant(None)], keywords=[])
+        return ast.fix_missing_locations(ast.copy_location(ast.Return(value=call), loop))
+
+    def tail(block, at_end):
+        """block whose fall-through end is the end of the function when at_end"""
+        if not block:
+            return block
+        block = list(block)
+        if len(block) >= 2 and isinstance(block[-1], ast.Return) and isinstance(block[-2], ast.For) \
+                and (block[-1].value is None or is_pure(block[-1].value)):
+            r = conv(block[-2], block[-1].value)
+            if r is not None:
+                return block[:-2] + [r]
+        if at_end and isinstance(block[-1], ast.For):
+            r = conv(block[-1], None)
+            if r is not None:
+                return block[:-1] + [r]
+        last = block[-1]
+        if isinstance(last, ast.If):
+            last.body = tail(last.body, at_end)
+            last.orelse = tail(last.orelse, at_end)
+        return block
+    if any(isinstance(n, (ast.Yield, ast.YieldFrom)) for s_ in stmts for n in ast.walk(s_) if not isinstance(s_, (ast.FunctionDef, ast.ClassDef))):
+        return stmts
+    return tail(stmts, True)
+
+
 def _one_sided_rebind(st: ast.If, acc, mapping, loop):
     """(x, value, positive) for `if c: x = A` / `if c: pass else: x = A` where x is bound before (loop target name or temporary)"""
     body = [b for b in st.body if not isinstance(b, ast.Pass)]
